@@ -410,6 +410,56 @@ def wide_problems(draw, tier):
             "indexes": sorted(set(allidx)), "globally_ordered": ordered, "alarm": 20}
 
 
+# names that mean something to the generated code (kernel function names, fields of taco_tensor_t, type names without an
+# underscore) but are perfectly legal tensor / index names; the unchanged tree handles all of them
+MEANINGFUL = ["evaluate", "assemble", "compute", "vals", "indices", "dimensions", "order", "tensor", "taco", "capacity", "main", "t", "p"]
+
+
+@st.composite
+def meaningful_name_problems(draw, tier):
+    base = draw(st.sampled_from(["o(i) = a(i,j) * x(j)", "o(i) = a(i) + b(i)", "o() = a(i) * a(i)", "o(i,j) = a(j,i) - b(i,j)"]))
+    from tensora.expression import parse_assignment
+
+    victims = draw(st.lists(st.sampled_from(["a", "o", "i", "x", "b", "j"]), min_size=1, max_size=2, unique=True))
+    names = draw(st.lists(st.sampled_from(MEANINGFUL), min_size=len(victims), max_size=len(victims), unique=True))
+    text = base
+    for v, n in zip(victims, names):
+        text = re.sub(rf"\b{v}\b", n, text)
+    pa = parse_assignment(text)
+    from returns.result import Failure
+
+    if isinstance(pa, Failure):  # the renaming made a tensor and an index share a name: not a valid assignment
+        text = base
+        pa = parse_assignment(text)
+    orders = dict(pa.unwrap().variable_orders())
+    fm = {n: draw(gen.formats(k)) for n, k in orders.items()}
+    idx = sorted(set(re.findall(r"[(,]([A-Za-z][A-Za-z0-9]*)", text)))
+    kinds = draw(st.sampled_from([k for k in KIND_SUBSETS if len(k) >= 2] + [list(reversed(k)) for k in KIND_SUBSETS if len(k) >= 2]))
+    return {"assignment": text, "formats": fm, "kinds": kinds, "language": draw(st.sampled_from(["c", "llvm", "llvm"])),
+            "shape": "meaningful-names", "indexes": idx}
+
+
+@st.composite
+def long_dense_problems(draw, tier):
+    """One long expression (12-60 operands) over a few dense tensors and literals: no merge lattice is involved (that is
+    F-L's territory), so generation has to stay fast however long or deeply nested the expression is."""
+    n = draw(st.sampled_from([12, 25, 40, 60]))
+    atoms = [["t", "b", ["i"]], ["t", "c", ["i"]], ["t", "d", []], ["i", 2], ["f", "1.5"], ["t", "b", ["i"]]]
+    nest = draw(st.sampled_from(["left", "right", "mixed"]))
+    ops = draw(st.sampled_from(["+", "+-", "+-*", "*"]))
+    tree = draw(st.sampled_from(atoms[:2]))
+    for _ in range(n - 1):
+        a = draw(st.sampled_from(atoms))
+        op = draw(st.sampled_from(ops))
+        right = nest == "right" or (nest == "mixed" and draw(st.booleans()))
+        tree = [op, a, tree] if right else [op, tree, a]
+    fm = {"o": "d", "b": "d", "c": "d", "d": ""}
+    used = {t[1] for t in X.tensors(tree)}
+    return {"assignment": X.assignment_text(["o", ["i"]], tree), "formats": {k: v for k, v in fm.items() if k == "o" or k in used},
+            "kinds": draw(st.sampled_from(KIND_SUBSETS)), "language": draw(st.sampled_from(["c", "llvm"])), "shape": f"long-dense-{n}",
+            "indexes": ["i"], "alarm": 30}
+
+
 @st.composite
 def reserved_problems(draw, tier):
     """A small valid problem in which one tensor or index is spelled as a reserved word."""
@@ -449,6 +499,8 @@ STREAMS = {
     "random": {"strategy": random_problems, "check": check_random},
     "reserved": {"strategy": reserved_problems, "check": check_random},
     "wide": {"strategy": wide_problems, "check": check_random},
+    "meaningful": {"strategy": meaningful_name_problems, "check": check_random},
+    "long_dense": {"strategy": long_dense_problems, "check": check_random},
 }
 
 
@@ -494,6 +546,8 @@ def run(chk):
     chk.absorb(run_stream(__name__, "random", chk.tier, chk.seed, 480 if quick else 20000), kind="problem")
     chk.absorb(run_stream(__name__, "reserved", chk.tier, chk.seed, 160 if quick else 3000), kind="problem")
     chk.absorb(run_stream(__name__, "wide", chk.tier, chk.seed, 160 if quick else 2400), kind="problem")
+    chk.absorb(run_stream(__name__, "meaningful", chk.tier, chk.seed, 160 if quick else 3000), kind="problem")
+    chk.absorb(run_stream(__name__, "long_dense", chk.tier, chk.seed, 64 if quick else 800), kind="problem")
     if not quick:
         from ..runner import coverage_guided
 
